@@ -20,6 +20,13 @@ def main() -> None:
     if args.tier:
         os.environ["VERIF_TIER"] = args.tier
     import common  # noqa: F401  (sets sys.path for the repo under test)
+    # Checks of the SAME tree may run in parallel (regeneration is idempotent, builds are serialised by
+    # common.Lock); a check of ANOTHER tree (VERIF_REPO=<scratch worktree>, used to try changes without touching
+    # /repo) rewrites the generated Lean files and therefore runs alone.
+    import fcntl
+    tree_lock = open(common.LEAN / ".tree.lock", "w")
+    other_tree = os.path.realpath(str(common.REPO)) != os.path.realpath("/repo")
+    fcntl.flock(tree_lock, fcntl.LOCK_EX if other_tree else fcntl.LOCK_SH)
     try:
         mod = importlib.import_module(f"props.{args.prop.lower()}")
     except ModuleNotFoundError:
